@@ -1373,7 +1373,8 @@ rc::Gen<model_cfg_t> gen_model_cfg(int model, bool continuous_only, bool converg
             rc::gen::tuple(continuous_only ? rc::gen::oneOf(rc::gen::element(std::vector<int>{0}, std::vector<int>{0, 3}, std::vector<int>{0, 0}),
                                                             rc::gen::mapcat(gen::range<int>(1, 3), [wl](int k) { return rc::gen::container<std::vector<int>>(static_cast<size_t>(k), wl); }))
                                            : rc::gen::mapcat(gen::range<int>(1, 3), [wl](int k) { return rc::gen::container<std::vector<int>>(static_cast<size_t>(k), wl); }),
-                           gen::range<int>(0, 1), rc::gen::element(0, 0, 0, 0, 2, 2, 2, 1), rc::gen::element(0, 0, 1, 2, 3, 4), rc::gen::element(1.0, 0.5, 0.8), gen::range<int>(0, 1024),
+                           gen::range<int>(0, 1), rc::gen::element(0, 0, 0, 0, 2, 2, 2, 1), rc::gen::element(0, 0, 1, 2, 3, 4), rc::gen::element(1.0, 0.5, 0.8),
+                           rc::gen::oneOf(gen::range<int>(0, 1024), gen::range<int>(0, 1024), rc::gen::element(0, 0, 1, 1024)) /* seeds incl. the bounds of the domain */,
                            gen::range<int>(1, 3), rc::gen::element(1e-6, 1e-4, 1e-2)),
             rc::gen::tuple(gen::range<int>(0, 1), rc::gen::element(2, 2, 3), gen::range<int>(0, 1024), rc::gen::element(80, 50, 66), rc::gen::element(0, 0, 0, 1),
                            gen::range<int>(10, 12), converge ? (model == 12 ? rc::gen::element(30, 60, 60) : rc::gen::element(100, 200, 200)) : rc::gen::element(20, 50, 100),
@@ -1990,7 +1991,9 @@ verdict_t check_fit(const fit_case_t& c, ctx_t& ctx)
     const auto fit_config = [&](const int code)
     {
         const int pool = threads_of(code / 3), cap = threads_of(code % 3);
-        nv::rng_state().store(static_cast<uint64_t>(c.rng) * 2U + 1U);
+        // the state of the default seeds (stand-in for std::random_device) differs between the configurations on purpose:
+        // every seed of a fit is explicit, so a fitted model must not depend on it
+        nv::rng_state().store(static_cast<uint64_t>(c.rng) * 2U + 1U + 1000003U * static_cast<uint64_t>(code + 1));
         ::setenv("NANO_VERIF_MAX_THREADS", cat(cap).c_str(), 1);
 
         fit_outcome_t o;
